@@ -119,7 +119,7 @@ def monitor(ex, final):
                 allowed.add('transport error')
             if s.main_ws is not None and (s.main_ws.server_closed or s.main_ws.done):
                 allowed.add('transport close')
-            if reason not in allowed:
+            if reason is not None and reason not in allowed:
                 raise V(ex, 'disconnect-reason-without-cause',
                         '%s|causes=%s' % (reason, cause_class([c for c in causes if c[0] <= t_ev])),
                         'session %d: disconnect reason %r at %.3f; causes so far %s' % (
@@ -141,10 +141,21 @@ def monitor(ex, final):
                         'session %d: %s at a quiet point, but %d disconnect events' % (
                             s.ord, cause, nd))
             reason = [a for _, e, a in evs if e == 'disconnect'][0]
-            if reason not in REASON[cause]:
+            if reason is not None and reason not in REASON[cause]:
                 raise V(ex, 'wrong-disconnect-reason', '%s->%s' % (cause, reason),
                         'session %d ended by %s alone, handler was told %r' % (
                             s.ord, cause, reason))
+        if final and nd == 1:
+            # cleanup happened even if the disconnect handler raised: the id is dead afterwards
+            c = ex.world.call('transport', sid)
+            ex.world.settle()
+            if c.done and not isinstance(c.exc, KeyError):
+                faulted = any(a['op'] == 'fault' and a['event'] == 'disconnect'
+                              for a in ex.actions)
+                raise V(ex, 'session-not-cleaned-up-after-disconnect-event',
+                        'handler-raised' if faulted else 'handler-ok',
+                        'session %d got its disconnect event but transport() still answers %r '
+                        '(exc %r)' % (s.ord, c.result, c.exc))
         if final and nd == 0:
             must = [c for c in causes if c[3] and c[3]['live'] and c[3]['settled_after']
                     and c[2] in ('close', 'api', 'ws-close', 'ws-fail')]
@@ -225,6 +236,7 @@ PROFILE = {
                          ['ret', rm.tag([1])], ['raise'], ['ret', rm.tag(True)],
                          ['ret', rm.tag('')]],
     'disconnect_all_pct': 2,
+    'world_kw_st': st.fixed_dictionaries({'legacy_disconnect': st.sampled_from([False, False, True])}),
 }
 
 
